@@ -108,21 +108,26 @@ class ResolverTask:
         except Exception as e:      # noqa
             res["status"], res["detail"] = "crash", "%s\n%s" % (e, traceback.format_exc())
         if res["status"] != "ok" or any(o["status"] != "discharged" for o in res["obligations"]):
-            from pyvc import driver
-            helper = "pyvc.rt_ptr" if self.which == "resolve_fragment" else "pyvc.rt_ref"
-            try:
-                res["search"] = driver.rt_call(helper, {"cmd": "search", "root": self.root, "limit": 3}, self.root, timeout=3000)
-                if self.which == "resolve_from_url" and not res["search"].get("failures"):
-                    # reference targets are found by document URL only (C10): identifier-looking objects elsewhere are not targets
-                    res["search"] = driver.rt_call("pyvc.rt_kw", {"cmd": "search_extras", "root": self.root, "limit": 3}, self.root, timeout=3000)
-                if self.which != "resolve_fragment" and not res["search"].get("failures"):
-                    # fetch accounting / cache behaviour
-                    res["search"] = driver.rt_call("pyvc.rt_hist", {"cmd": "search", "root": self.root, "maxlen": 2, "limit": 3,
-                                                                     "configs": [[True, "default"], [False, "default"]]}, self.root, timeout=3000)
-            except Exception as e:      # noqa
-                res["search"] = {"error": str(e)[-300:], "failures": []}
+            self.failure_search(res)
         res["wall_s"] = round(time.time() - t0, 3)
         return res
+
+    def failure_search(self, res):
+        """directed search on the real code for an input that exhibits the failure"""
+        from pyvc import driver
+        helper = "pyvc.rt_ptr" if self.which == "resolve_fragment" else "pyvc.rt_ref"
+        try:
+            res["search"] = driver.rt_call(helper, {"cmd": "search", "root": self.root, "limit": 3}, self.root, timeout=3000)
+            if self.which == "resolve_from_url" and not res["search"].get("failures"):
+                # reference targets are found by document URL only (C10): identifier-looking objects elsewhere are not targets
+                res["search"] = driver.rt_call("pyvc.rt_kw", {"cmd": "search_extras", "root": self.root, "limit": 3}, self.root, timeout=3000)
+            if self.which != "resolve_fragment" and not res["search"].get("failures"):
+                # fetch accounting / cache behaviour
+                res["search"] = driver.rt_call("pyvc.rt_hist", {"cmd": "search", "root": self.root, "maxlen": 2, "limit": 3,
+                                                                 "configs": [[True, "default"], [False, "default"]]}, self.root, timeout=3000)
+        except Exception as e:      # noqa
+            res["search"] = {"error": str(e)[-300:], "failures": []}
+
 
     def finish(self, res, ctx, obls):
         for ob in obls:
